@@ -435,9 +435,10 @@ static COUNTER: std::sync::atomic::AtomicUsize = std::sync::atomic::AtomicUsize:
 fn run_real(mech_t: &str, guid: &str, flatpak: bool, chunks: &str) -> String {
     use std::os::linux::net::SocketAddrExt;
     use std::os::unix::net::{SocketAddr, UnixListener};
+    // a real unix socket says EXTERNAL itself: "a" (socket says ANONYMOUS) cannot be scripted here
     let (bmech, _) = match parse_mech(mech_t) {
-        Some(x) => x,
-        None => return "BADCASE".into(),
+        Some(x) if mech_t != "a" => x,
+        _ => return "BADCASE".into(),
     };
     let mut script = vec![];
     if chunks != "-" {
